@@ -3,6 +3,7 @@ import MdwModel.Driver.C09
 import MdwModel.Driver.C13
 import MdwModel.Driver.Stack
 import MdwModel.Driver.C15
+import MdwModel.Driver.C17
 import MdwModel.Driver.C01
 import MdwModel.Driver.C19
 import MdwModel.Driver.LiveProps
@@ -26,6 +27,7 @@ def dispatchPure (prop : String) (kv : List (String × String)) : Res :=
   | "C13" => C13.run kv
   | "C12" => Stack.run12 kv
   | "C15" => C15.run kv
+  | "C17" => C17.run kv
   | "C06" => match get kv "kind" with
     | some "stackinfo" => Stack.run06info kv
     | _ => .bad "C06 kind"
